@@ -80,9 +80,9 @@ CHECKS = {
     engine="pathflags",
     technique="path-sensitive abstract interpretation with an allocation typestate over every malloc/calloc/realloc site of the library: null-tested before any dereference, freed or handed over at every return; realloc split into success/failure edges; correlated flag tests followed by SSA identity of the condition",
     category="other",
-    text="Covers every allocation site (18 in 10 functions) and every path from it, which is the statement 'for every position k at which the k-th allocation fails' without enumerating fault positions: a block that may be NULL must not be dereferenced or passed to a dereferencing routine, and a block that may be non-NULL must not be owned at a return. The clause 'dest cleared as for any other violation' on the failure exit is C04's.",
+    text="Covers every allocation site (18 in 10 functions) and every path from it, which is the statement 'for every position k at which the k-th allocation fails' without enumerating fault positions: a block that may be NULL must not be dereferenced or passed to a dereferencing routine, and a block that may be non-NULL must not be owned at a return. In functions with up to three allocation sites every allocation forks into a succeeded and a failed outcome, and on the failed outcome the call must not return a success value (a library callee that rejects a NULL dest itself - confirmed per callee by exploring it under dest == NULL - is assumed to fail there). The clause 'dest cleared as for any other violation' on the failure exit is C04's.",
     design_ref="DESIGN.md §3.3, §4 C20",
-    note=TB + "; allocator contract (NULL on failure, realloc keeps the old block on failure); a callee receiving a block is assumed to dereference it; 27 triaged known findings (12 unchecked allocations, leaks on wcsnorm ESNOSPC exits and the %ls failure path)"),
+    note=TB + "; allocator contract (NULL on failure, realloc keeps the old block on failure); a callee receiving a block is assumed to dereference it; 23 triaged known findings (12 unchecked allocations, leaks on wcsnorm ESNOSPC exits and the %ls failure path)"),
  "C01": dict(
     engine="capcheck",
     technique="relational abstract interpretation of the cursor/budget idiom: linear loop equalities (null space of header-phi increments), lock-step and range candidates proved by induction (Houdini), dominating branch guards, Fourier-Motzkin entailment of 0 <= off and off + size <= declared capacity for every write",
